@@ -45,6 +45,21 @@ type Template struct {
 	lex       *lexer
 	token     [3]item // three-token lookahead for parser.
 	peekCount int
+	depth     int // nesting of the expression or statement list being parsed
+}
+
+// maxParseDepth bounds the nesting of expressions and statements. The parser is
+// recursive: without a bound, a source nested deeply enough overflows the
+// goroutine stack, which ends the process (no recover() catches it).
+const maxParseDepth = 10000
+
+// nest is called on entry to the recursive parsing functions; use as: defer t.nest()()
+func (t *Template) nest() (leave func()) {
+	t.depth++
+	if t.depth > maxParseDepth {
+		t.errorf("nested too deeply (more than %d levels)", maxParseDepth)
+	}
+	return func() { t.depth-- }
 }
 
 func (t *Template) String() (template string) {
@@ -500,6 +515,7 @@ func (t *Template) parseReturn() Node {
 //	textOrAction*
 // Terminates at any of the given nodes, returned separately.
 func (t *Template) itemList(terminatedBy ...NodeType) (list *ListNode, next Node) {
+	defer t.nest()()
 	list = t.newList(t.peekNonSpace().pos)
 	for t.peekNonSpace().typ != itemEOF {
 		n := t.textOrAction()
@@ -581,6 +597,7 @@ func (t *Template) logicalExpression(context string) (Expression, item) {
 }
 
 func (t *Template) parseExpression(context string) (Expression, item) {
+	defer t.nest()()
 	expression, endtoken := t.logicalExpression(context)
 	if endtoken.typ == itemTernary {
 		var left, right Expression
@@ -632,6 +649,7 @@ func (t *Template) multiplicativeExpression(context string) (left Expression, en
 }
 
 func (t *Template) unaryExpression(context string) (Expression, item) {
+	defer t.nest()()
 	next := t.nextNonSpace()
 	switch next.typ {
 	case itemNot:
